@@ -97,6 +97,9 @@ var hostileKinds = []string{
 	"mp-extra", "mp-first-only", "mp-reverse", "mp-truncated", "mp-part-short", "mp-part-long", "mp-zero-parts", "mp-huge-range",
 	"ct-garbage", "206-no-ranges", "200-cl-garbage", "200-cl-negative", "200-cl-huge", "200-cl-small", "200-cl-large", "200-whole",
 	"squash", "st-403", "st-400", "st-416", "st-500", "st-401", "st-302-noloc", "st-302-garbage", "st-204", "err-transport",
+	// the status for every request for layer bytes, persistently, while the two-byte location probe (Range: bytes=0-1 of
+	// redirect()/refreshURL) keeps being answered honestly: the fetcher's refresh-and-retry paths are entered again and again
+	"st-403-keep-probe", "st-400-keep-probe", "st-401-keep-probe", "st-500-keep-probe",
 	"head-cl-garbage", "head-cl-negative", "head-cl-huge", "head-cl-zero", "head-cl-missing", "head-405", "head-405-cr-garbage",
 }
 
@@ -467,6 +470,11 @@ func hostileScript(p *hostilePlan, data []byte, cdn func() string, delivered *at
 			return memreg.Behaviour{Label: kind, Mode: memreg.Whole}
 		case "squash":
 			return memreg.Behaviour{Label: kind, Mode: memreg.Squash}
+		case "st-403-keep-probe", "st-400-keep-probe", "st-401-keep-probe", "st-500-keep-probe":
+			if len(q.Ranges) == 1 && q.Ranges[0] == [2]int64{0, 1} {
+				return memreg.Behaviour{}
+			}
+			return memreg.Behaviour{Label: kind, Status: map[string]int{"st-403-keep-probe": 403, "st-400-keep-probe": 400, "st-401-keep-probe": 401, "st-500-keep-probe": 500}[kind]}
 		case "st-403":
 			return memreg.Behaviour{Label: kind, Status: 403}
 		case "st-400":
